@@ -31,6 +31,8 @@ STRUCTS = ["cmb_random_alias"]
 CONST_DOUBLES = ["sum_tolerance", "nor_zig_x_tail_start", "nor_zig_inv_tail_start", "exp_zig_x_tail_start"]
 # functions outside the subset of which one do-while loop and the return after it are translated (see c2lean_dist: FRAGMENTS)
 FRAGMENTS = {"cmi_random_nor_not_hot": "cmi_random_nor_not_hot_tail"}
+# functions outside the subset of which the one statement updating a named local is translated (c2lean_dist.update_fragment)
+UPDATES = {"cmi_random_exp_not_hot": ("x_offset", "cmi_random_exp_not_hot_tail_step")}
 
 TABLES = {
     "exp": ("cmi_random_exp_zig.inc",
@@ -164,6 +166,13 @@ def functions_text(impl):
                     "true = go round again), `%s_result` the value returned after the loop -/\n%s" % (
                         name, c2lean.ast_hash(fns[name]), stem, stem, text))
         info.append({"function": name + " (do-while fragment)", "ast": c2lean.ast_hash(fns[name]), "fragments": fis})
+    for name, (var, lean_name) in UPDATES.items():
+        if name not in fns:
+            raise c2lean.Untranslatable("function %s with a body not found in %s" % (name, SRC))
+        text, fi = tr.update_fragment(fns[name], var, lean_name)
+        body.append("/-- %s (AST %s): the one statement that updates the local `%s` (the tail offset of the exponential ziggurat), as a "
+                    "function of its value, and its initial value -/\n%s" % (name, c2lean.ast_hash(fns[name]), var, text))
+        info.append({"function": name + " (update of %s)" % var, "ast": c2lean.ast_hash(fns[name]), "fragments": [fi]})
     return "\n".join(body), info, {k: str(v) for k, v in consts.items()}
 
 
